@@ -386,6 +386,12 @@ class Engine:
                     return self.ite(ta, a.x[1], bb)
                 except TypeError:
                     pass
+            if a.t[0] in ("bag", "set", "seq", "list") and b.t[0] in ("bag", "set", "seq", "list") and not (a.t[0] == "list" and b.t[0] == "list"):
+                # xs or ys -> xs when it is non-empty, else ys
+                try:
+                    return self.ite(self.truth(a), a, b)
+                except (TypeError, OutOfSubset):
+                    pass
         return vbool(zand(*[self.truth(a) for a in acc]) if is_and else zor(*[self.truth(a) for a in acc]))
 
     def ite(self, c, a: V, b: V) -> V:
